@@ -229,7 +229,7 @@ func (d *distDomain) step(f []string) string {
 		i, err := strconv.Atoi(f[k])
 		return i, err == nil && i >= 0 && i < len(d.nodes)
 	}
-	setNow := func(i int) { d.now = d.tick*10 + d.offs[i] }
+	setNow := func(i int) { d.now = 1000 + d.tick*10 + d.offs[i] }
 	switch f[0] {
 	case "reset":
 		*d = *newDistDomain()
@@ -317,6 +317,15 @@ func (d *distDomain) step(f []string) string {
 			return "nosuch"
 		}
 		d.nodes[t].st.Distributor().NotifyMsg(d.nodes[i].sent[k])
+		return "ok"
+	case f[0] == "deliverall" && len(f) == 3:
+		t, ok := node(2)
+		if !ok {
+			return "bad-op"
+		}
+		for _, b := range d.nodes[i].sent {
+			d.nodes[t].st.Distributor().NotifyMsg(b)
+		}
 		return "ok"
 	case f[0] == "batch" && len(f) == 4:
 		t, ok := node(3)
